@@ -362,7 +362,7 @@ func runOnce(sc Scenario, seed string) (outcome, []sim.Event, bool) {
 		}
 	}
 	for _, a := range e.Anomalies {
-		if strings.HasPrefix(a, "hash-collision") {
+		if strings.HasPrefix(a, "hash-collision") && e.Log { // the abstract views are only maintained for logged scenarios
 			r.violate("C06", "echo-hash-collision", a, "")
 		}
 	}
@@ -852,6 +852,15 @@ func (r *runner) dealerCheat(sess *protos.Session, label func(party.ID) string) 
 		} else {
 			mk = func() protocol.StartFunc { return cmp.Refresh(cfgs[k].(*cmp.Config), nil) }
 		}
+		if strings.HasPrefix(r.sc.Alt, "commit:") {
+			protos.CommitCheat(sess, k, strings.TrimPrefix(r.sc.Alt, "commit:"), []byte("sid"), mk)
+			for _, id := range su.ids {
+				e.AddParty(id, r.newParty(sess, id, label(id)))
+			}
+			r.loop(nil)
+			r.out.Reached = true
+			return
+		}
 		if r.sc.Alt == "nonzero" && su.proto == "cmp-keygen" || strings.HasPrefix(r.sc.Alt, "eval") {
 			r.out.Applicable = false
 			r.out.Why = "not defined for this protocol"
@@ -871,6 +880,15 @@ func (r *runner) dealerCheat(sess *protos.Session, label func(party.ID) string) 
 	}
 	if strings.HasPrefix(r.sc.Alt, "eval") {
 		r.evalPointCheat(sess, label, mk)
+		return
+	}
+	if strings.HasPrefix(r.sc.Alt, "commit:") {
+		protos.CommitCheat(sess, k, strings.TrimPrefix(r.sc.Alt, "commit:"), []byte("sid"), mk)
+		for _, id := range su.ids {
+			e.AddParty(id, r.newParty(sess, id, label(id)))
+		}
+		r.loop(nil)
+		r.out.Reached = true
 		return
 	}
 	protos.FrostDealerCheat(sess, k, delta, []byte("sid"), mk)
@@ -1195,8 +1213,17 @@ func (r *runner) relabel(sess *protos.Session, label func(party.ID) string) {
 		r.out.Why = "no such message, or the impersonated party's own message always arrived first"
 		return
 	}
-	if st := e.Parties[victim].Status(); st.St == "done" {
+	// The message carries a proof (or a share) that is bound to its maker: under another sender's name it must fail the
+	// verification of ITS round and that sender must be named.  Getting past that round - to completion, or to an error
+	// of a later round - means the proof verified for a party that did not make it.
+	st := e.Parties[victim].Status()
+	switch {
+	case st.St == "done":
 		r.violate("C09", "relabelled-accepted", fmt.Sprintf("party %s completed although a message made by %s (round %d) was stored under the name of %s", victim, from, r.sc.Round, k), "")
+	case st.St == "err" && len(st.Culprits) == 1 && st.Culprits[0] == k && strings.Contains(st.Err.Error(), fmt.Sprintf("round %d:", r.sc.Round)):
+		// refused where it must be
+	default:
+		r.violate("C09", "relabelled-accepted", fmt.Sprintf("party %s did not refuse, in round %d, a message made by %s and presented under the name of %s: it ends %s (%v)", victim, r.sc.Round, from, k, st.St, st.Err), "")
 	}
 }
 
